@@ -5,11 +5,13 @@ implementation by replay.
 The model is ~100x cheaper than a real step (no cvxpy), so it is explored to a deeper deviation bound
 (two / three deviating rounds with the full menus) than the direct search of checks/reach.py.
 Binding to the code: (i) every distinct terminal outcome the model reaches is replayed on the real
-run_one_step() along the model's path and must end in the same (S, P, U) - a divergence is reported,
+run_one_step() along the model's path - on ONE live implementation instance that executes the whole trace,
+nothing re-injected between rounds - and must agree with the model's (S, P, U) after every round - a divergence is reported,
 never ignored; (ii) every model path that violates the property's conclusion is replayed on the real
 code and reported only if the real code violates it too.  Boundary decisions (within tau) end a
 model branch (counted).
 """
+import copy
 import itertools
 
 import numpy as np
@@ -192,9 +194,11 @@ def run_mreach(unit, res, replay=None):
         st = dict(st0)
         ok = True
         mst = dict(st0)
+        live = copy.deepcopy(ex.tmpl)  # ONE implementation instance executes the whole model trace (nothing re-injected)
         for evs in path:
             ev = {int(k): v for k, v in evs.items()}
-            st, done, _ = ex.step(st, ev)
+            st, done, _ = ex.step(st, ev, live=live)
+            live = ex.last_alg
             mst = model.step(mst, ev)
             if (set(st["S"]), set(st["P"]), set(st["U"])) != (set(mst["S"]), set(mst["P"]), set(mst["U"])):
                 ok = False
@@ -241,9 +245,11 @@ def replay_case(case):
     st0 = {"S": set(range(case["K"])), "P": set(), "U": set(), "layer": 0, "budget": case["budget"], "frozen": {}}
     st, mst = dict(st0), dict(st0)
     out = []
+    live = copy.deepcopy(ex.tmpl)
     for evs in case["path"]:
         ev = {int(k): v for k, v in evs.items()}
-        st, done, _ = ex.step(st, ev)
+        st, done, _ = ex.step(st, ev, live=live)
+        live = ex.last_alg
         mst = model.step(mst, ev) if mst is not None else None
         if mst is not None and (set(st["S"]), set(st["P"]), set(st["U"])) != (set(mst["S"]), set(mst["P"]), set(mst["U"])):
             out.append(core.violation(case["prop"], {"kind": "model-impl-divergence", "alg": case["alg"]}, case, "model state", {"S": sorted(st["S"]), "P": sorted(st["P"])}, "divergence"))
